@@ -45,20 +45,22 @@ theorem chainInv_apply (h0 : Nat) (s : State) (a : Act) (h : ChainInv h0 s) : Ch
     simp only [apply, runStep]
     split
     · exact ⟨h1, h2⟩
-    · split
+    · unfold wake; split
       · exact ⟨h1, h2⟩
       · split <;> exact ⟨h1, h2⟩
     · exact ⟨h1, h2⟩
-    · split <;> exact ⟨h1, h2⟩
-    · rename_i b pos
-      split
-      · rename_i hacc
+    · exact ⟨h1, h2⟩
+    · rename_i b pos _
+      unfold addItem
+      by_cases hacc : accepts s.height b = true
+      · simp only [hacc, if_true, ChainInv, applied_append, applied, h2]
         simp only [accepts, Bool.and_eq_true, beq_iff_eq] at hacc
-        simp only [ChainInv, applied_append, applied, h2]
         refine ⟨by omega, ?_⟩
         have : s.height + 1 - h0 = (s.height - h0) + 1 := by omega
         rw [this, range'_snoc, hacc.2]; congr 2; omega
-      · simp only [ChainInv, applied_append, applied, h2, List.append_nil]; exact ⟨h1, trivial⟩
+      · simp only [Bool.not_eq_true] at hacc
+        simp only [hacc, ChainInv, applied_append, applied, h2, List.append_nil]
+        exact ⟨h1, by simp⟩
     · exact ⟨h1, h2⟩
     · exact ⟨h1, h2⟩
 
